@@ -1996,7 +1996,7 @@ func isPlainIdentifier(name string) bool {
 	}
 	for i := 0; i < len(name); i++ {
 		c := uint16(name[i])
-		if !isLetter(c) && (i == 0 || !isDigit(c)) {
+		if (!isLetter(c) && (i == 0 || !isDigit(c))) || c == '@' {
 			return false
 		}
 	}
